@@ -1,3 +1,17 @@
-/-  C09/Theorems — the ledger for property C09 (every theorem here is audited).  Placeholder. -/
+/-
+  C09/Theorems — the ledger for property C09.  Every `theorem` in this file is audited
+  (`#print axioms` ⊆ {propext, Classical.choice, Quot.sound}) on every run.
+-/
+import OttoVerif.C09.Spec
 namespace OttoVerif.C09.Thm
+open OttoVerif.F64 OttoVerif.Str OttoVerif.C05 OttoVerif.C09
+
+/-- trim_set: the cut set handed to strings.Trim (builtinStringTrimWhitespace) is exactly
+    ES5 §7.2 WhiteSpace ∪ §7.3 LineTerminator. -/
+theorem trim_set (u : Nat) : trimWhitespace.contains u = Spec.isWhite u := by
+  simp only [trimWhitespace, Spec.isWhite, List.contains_cons, List.contains_nil, Bool.or_false]
+  rw [Bool.eq_iff_iff]
+  simp only [Bool.or_eq_true, Bool.and_eq_true, beq_iff_eq, decide_eq_true_eq]
+  omega
+
 end OttoVerif.C09.Thm
